@@ -673,6 +673,250 @@ theorem c20_hist_value_error (v : Nat) (hv : v < two32) :
       rw [hmod]
       exact ⟨h2, h3, h4, h5, h7, h8⟩
 
+/-! ## C20, a whole readout run without interference -/
+
+theorem step_swapC_ctrOf_ne (s : State) (k k' : Key) (h : k' ≠ k) :
+    (step s (.swapC k)).1.ctrOf k' = s.ctrOf k' := by
+  simp [step, State.ctrOf, FMap.get_put, h]
+
+/-- the counter part of a readout: with one registry cell per key, every registered counter is swapped exactly once
+and hands out its current value -/
+theorem run_swapC_list (s : State) (ks : List Key) (hnd : ks.Nodup) :
+    (run s (ks.map Ev.swapC)).2 = ks.map (fun k => Obs.counter k (s.ctrOf k)) := by
+  induction ks generalizing s with
+  | nil => rfl
+  | cons k ks ih =>
+    have hk : k ∉ ks := (List.nodup_cons.mp hnd).1
+    have hks := (List.nodup_cons.mp hnd).2
+    simp only [List.map_cons, run_cons]
+    rw [ih _ hks]
+    simp only [step, List.singleton_append, List.cons.injEq, true_and]
+    apply List.map_congr_left
+    intro k' hk'
+    have : k' ≠ k := fun e => hk (e ▸ hk')
+    have := step_swapC_ctrOf_ne s k k' this
+    simp only [step] at this
+    rw [this]
+
+
+
+def Ev.isReadoutStep : Ev → Bool
+  | .swapC _ | .gload _ | .hswap _ _ => true
+  | _ => false
+
+theorem run_emitZero (s : State) (evs : List Ev) : (run s evs).1.emitZero = s.emitZero := by
+  induction evs generalizing s with
+  | nil => rfl
+  | cons e es ih =>
+    rw [run_cons]; simp only []; rw [ih]
+    cases e <;> simp only [step] <;> try rfl
+    split <;> rfl
+
+theorem run_regH_readoutSteps (s : State) (evs : List Ev) (h : ∀ e ∈ evs, e.isReadoutStep = true) :
+    (run s evs).1.regH = s.regH := by
+  induction evs generalizing s with
+  | nil => rfl
+  | cons e es ih =>
+    rw [run_cons]; simp only []
+    rw [ih _ (fun e' he' => h e' (List.mem_cons_of_mem _ he'))]
+    have := h e (List.mem_cons_self ..)
+    cases e <;> simp_all [Ev.isReadoutStep, step]
+
+theorem lastDescribe_readoutSteps (nm cur : Nat) (evs : List Ev) (h : ∀ e ∈ evs, e.isReadoutStep = true) :
+    lastDescribe nm cur evs = cur := by
+  induction evs generalizing cur with
+  | nil => rfl
+  | cons e es ih =>
+    have := h e (List.mem_cons_self ..)
+    have ih' := fun c => ih c (fun e' he' => h e' (List.mem_cons_of_mem _ he'))
+    cases e <;> simp_all [Ev.isReadoutStep, lastDescribe]
+
+theorem lastSet_readoutSteps (k : Key) (cur : Nat) (evs : List Ev) (h : ∀ e ∈ evs, e.isReadoutStep = true) :
+    lastSet k cur evs = cur := by
+  induction evs generalizing cur with
+  | nil => rfl
+  | cons e es ih =>
+    have := h e (List.mem_cons_self ..)
+    have ih' := fun c => ih c (fun e' he' => h e' (List.mem_cons_of_mem _ he'))
+    cases e <;> simp_all [Ev.isReadoutStep, lastSet]
+
+theorem readoutEvents_steps (s : State) : ∀ e ∈ readoutEvents s, e.isReadoutStep = true := by
+  intro e he
+  simp only [readoutEvents, List.mem_append, List.mem_map, List.mem_flatMap] at he
+  rcases he with (⟨k, _, rfl⟩ | ⟨k, _, rfl⟩) | ⟨k, _, i, _, rfl⟩ <;> rfl
+
+theorem run_gload_list (s : State) (ks : List Key) :
+    run s (ks.map Ev.gload) = (s, ks.map (fun k => Obs.gauge k (s.gaugeOf k))) := by
+  induction ks with
+  | nil => rfl
+  | cons k ks ih => simp only [List.map_cons, run_cons, step, ih, List.singleton_append]
+
+theorem counterItems_append (ez : Bool) (u : Nat → Nat) (a b : List Obs) :
+    counterItems ez u (a ++ b) = counterItems ez u a ++ counterItems ez u b := by
+  induction a with
+  | nil => rfl
+  | cons o os ih => cases o <;> simp only [List.cons_append, counterItems, ih] <;> split <;> simp
+
+theorem gaugeItems_append (u : Nat → Nat) (a b : List Obs) :
+    gaugeItems u (a ++ b) = gaugeItems u a ++ gaugeItems u b := by
+  induction a with
+  | nil => rfl
+  | cons o os ih => cases o <;> simp [gaugeItems, ih]
+
+def Obs.isBucket : Obs → Bool
+  | .bucket _ _ _ => true
+  | _ => false
+
+theorem run_hswaps_obs (s : State) (evs : List Ev) (h : ∀ e ∈ evs, ∃ k i, e = Ev.hswap k i) :
+    ∀ o ∈ (run s evs).2, o.isBucket = true := by
+  induction evs generalizing s with
+  | nil => simp [run]
+  | cons e es ih =>
+    rw [run_cons]
+    obtain ⟨k, i, rfl⟩ := h _ (List.mem_cons_self ..)
+    intro o ho
+    simp only [step, List.singleton_append, List.mem_cons] at ho
+    rcases ho with rfl | ho
+    · rfl
+    · exact ih _ (fun e' he' => h e' (List.mem_cons_of_mem _ he')) o ho
+
+theorem counterItems_buckets (ez : Bool) (u : Nat → Nat) (obs : List Obs) (h : ∀ o ∈ obs, o.isBucket = true) :
+    counterItems ez u obs = [] := by
+  induction obs with
+  | nil => rfl
+  | cons o os ih =>
+    have := h o (List.mem_cons_self ..)
+    have ih' := ih (fun o' ho' => h o' (List.mem_cons_of_mem _ ho'))
+    cases o <;> simp_all [Obs.isBucket, counterItems]
+
+theorem gaugeItems_buckets (u : Nat → Nat) (obs : List Obs) (h : ∀ o ∈ obs, o.isBucket = true) :
+    gaugeItems u obs = [] := by
+  induction obs with
+  | nil => rfl
+  | cons o os ih =>
+    have := h o (List.mem_cons_self ..)
+    have ih' := ih (fun o' ho' => h o' (List.mem_cons_of_mem _ ho'))
+    cases o <;> simp_all [Obs.isBucket, gaugeItems]
+
+theorem counterItems_counters (ez : Bool) (u : Nat → Nat) (c : Key → Nat) (ks : List Key) :
+    counterItems ez u (ks.map (fun k => Obs.counter k (c k))) =
+      (ks.filter (fun k => ez || c k != 0)).map
+        (fun k => { name := k.name, dims := k.labels, unit := u k.name, obs := [.unsigned (c k)] }) := by
+  induction ks with
+  | nil => rfl
+  | cons k ks ih =>
+    simp only [List.map_cons, counterItems, List.filter_cons, ih]
+    split <;> simp
+
+theorem gaugeItems_counters (u : Nat → Nat) (c : Key → Nat) (ks : List Key) :
+    gaugeItems u (ks.map (fun k => Obs.counter k (c k))) = [] := by
+  induction ks with
+  | nil => rfl
+  | cons k ks ih => simp [gaugeItems, ih]
+
+theorem counterItems_gauges (ez : Bool) (u : Nat → Nat) (c : Key → Nat) (ks : List Key) :
+    counterItems ez u (ks.map (fun k => Obs.gauge k (c k))) = [] := by
+  induction ks with
+  | nil => rfl
+  | cons k ks ih => simp [counterItems, ih]
+
+theorem gaugeItems_gauges (u : Nat → Nat) (c : Key → Nat) (ks : List Key) :
+    gaugeItems u (ks.map (fun k => Obs.gauge k (c k))) =
+      ks.map (fun k => { name := k.name, dims := k.labels, unit := u k.name, obs := [.floating (c k)] }) := by
+  induction ks with
+  | nil => rfl
+  | cons k ks ih => simp [gaugeItems, ih]
+
+/-- **C20 (a whole readout).** A readout that runs without interference on a state whose counter registry has one
+cell per key (`regC.Nodup`, which `register` maintains) writes: every registered counter whose cell is non-zero (every
+registered counter under `emit_zero_counters`) with exactly the cell's value, every registered gauge with its current
+value, every registered histogram — all under the registered name, labels and the currently described unit. -/
+theorem c20_readout_entry (s : State) (hnd : s.regC.Nodup) :
+    (readout s).2.counters =
+      (s.regC.filter (fun k => s.emitZero || s.ctrOf k != 0)).map
+        (fun k => { name := k.name, dims := k.labels, unit := s.unitOf k.name, obs := [.unsigned (s.ctrOf k)] }) ∧
+    (readout s).2.gauges =
+      s.regG.map (fun k => { name := k.name, dims := k.labels, unit := s.unitOf k.name, obs := [.floating (s.gaugeOf k)] }) ∧
+    (readout s).2.hists.map (fun it => (it.name, it.dims, it.unit)) =
+      s.regH.map (fun k => (k.name, k.labels, s.unitOf k.name)) := by
+  have hsteps := readoutEvents_steps s
+  have hez : (run s (readoutEvents s)).1.emitZero = s.emitZero := run_emitZero _ _
+  have hunit : (run s (readoutEvents s)).1.unitOf = s.unitOf := by
+    funext nm; rw [run_unitOf, lastDescribe_readoutSteps _ _ _ hsteps]
+  have hregH : (run s (readoutEvents s)).1.regH = s.regH := run_regH_readoutSteps _ _ hsteps
+  -- the observations, block by block
+  have hobs : (run s (readoutEvents s)).2 =
+      s.regC.map (fun k => Obs.counter k (s.ctrOf k)) ++
+      (s.regG.map (fun k => Obs.gauge k (s.gaugeOf k)) ++
+       (run (run s (s.regC.map Ev.swapC)).1
+          (s.regH.flatMap (fun k => (List.range nBuckets).map (Ev.hswap k)))).2) := by
+    unfold readoutEvents
+    rw [List.append_assoc, run_append, run_append]
+    simp only []
+    rw [run_swapC_list s _ hnd, run_gload_list]
+    simp only []
+    have : ∀ k, (run s (s.regC.map Ev.swapC)).1.gaugeOf k = s.gaugeOf k := by
+      intro k
+      rw [run_gaugeOf, lastSet_readoutSteps]
+      intro e he
+      simp only [List.mem_map] at he
+      obtain ⟨k', _, rfl⟩ := he; rfl
+    simp only [this]
+  have hbuckets : ∀ o ∈ (run (run s (s.regC.map Ev.swapC)).1
+      (s.regH.flatMap (fun k => (List.range nBuckets).map (Ev.hswap k)))).2, o.isBucket = true := by
+    apply run_hswaps_obs
+    intro e he
+    simp only [List.mem_flatMap, List.mem_map] at he
+    obtain ⟨k, _, i, _, rfl⟩ := he
+    exact ⟨k, i, rfl⟩
+  refine ⟨?_, ?_, ?_⟩
+  · simp only [readout, buildEntry, hez, hunit, hobs, counterItems_append, counterItems_counters,
+      counterItems_gauges, counterItems_buckets _ _ _ hbuckets, List.append_nil]
+  · simp only [readout, buildEntry, hunit, hobs, gaugeItems_append, gaugeItems_counters, gaugeItems_gauges,
+      gaugeItems_buckets _ _ hbuckets, List.append_nil, List.nil_append]
+  · simp only [readout, buildEntry, histItems, hunit, hregH, List.map_map]
+    rfl
+
+/-- `register` keeps one cell per key -/
+theorem register_nodup (reg : List Key) (k : Key) (h : reg.Nodup) : (register reg k).Nodup := by
+  unfold register
+  split
+  · exact h
+  · rename_i hk
+    rw [List.nodup_append]
+    refine ⟨h, by simp, ?_⟩
+    intro a ha b hb
+    simp only [List.mem_singleton] at hb
+    subst hb; intro e; subst e; exact hk ha
+
+theorem run_regC_nodup (s : State) (evs : List Ev) (h : s.regC.Nodup) : (run s evs).1.regC.Nodup := by
+  induction evs generalizing s with
+  | nil => exact h
+  | cons e es ih =>
+    rw [run_cons]; simp only []
+    apply ih
+    cases e <;> simp only [step] <;> try exact h
+    · exact register_nodup _ _ h
+    · split <;> exact h
+
+
+/-- Non-vacuity / boundary witness for the `count as u32` cast in `Histogram::drain`: a bucket that received 2^32
+samples between two drains is written with 0 occurrences (confirmed on the real code by the opt-in `--u32-probe`);
+the entry-level count equals the drained count only below 2^32 (assumption of `props/C20.json`). -/
+example : bucketsOf ⟨1, []⟩ [Obs.bucket ⟨1, []⟩ 7 4294967296] = [OV.repeated 7 0] := by decide
+
+/-- Non-vacuity of the sequential readout: a counter with labels, a described histogram; the second readout reports
+nothing for the counter (zero delta dropped) and an empty histogram. -/
+example :
+    let k : Key := ⟨1, [(0, 1)]⟩
+    let h : Key := ⟨2, []⟩
+    let r := runScript (State.init false)
+      [.ev (.regC k), .ev (.inc k 5), .ev (.describe 2 4), .ev (.regH h), .ev (.hrec h 1000), .ev (.hrec h 1001),
+       .readout, .ev (.inc k 0), .readout]
+    r.2.map (fun e => (e.counters, e.hists)) =
+      [([⟨1, [(0, 1)], 0, [.unsigned 5]⟩], [⟨2, [], 4, [.repeated 1007 2]⟩]), ([], [⟨2, [], 4, []⟩])] := by
+  decide +kernel
+
 /-- Non-vacuity: two updaters racing with two readouts on one counter (`inc 5`, swap, `inc 7`, `inc 2^64-1`, swap,
 `inc 3`): the reported deltas are 5 and 6 (= 7 + 2^64-1 wrapped), 3 stays; a histogram sample lands between the
 bucket swaps of a drain. -/
@@ -698,3 +942,4 @@ end MetricsRs
 #print axioms MetricsRs.c20_unit_table_preserves_quantity
 #print axioms MetricsRs.c20_unit_none_is_none
 #print axioms MetricsRs.c20_hist_value_error
+#print axioms MetricsRs.c20_readout_entry
